@@ -69,6 +69,8 @@ int main() {
       if (k == 1 && (cs & 1)) buf.sputc(bytes[pos]);
       else buf.sputn(bytes.data() + pos, (std::streamsize)k);
       pos += k;
+      // a flush in the middle of an entry (std::endl / std::flush / pubsync) must not change what is accounted
+      if (cs >= 2 && (rnd() % 3) == 0) buf.pubsync();
     }
     LogEntry& e = buf.end();
     std::vector<struct ::iovec> iov;
